@@ -181,3 +181,31 @@ PROPS.update({
                     ["mpxfault"],
                     extra={"assumptions": ["xsync.Map operations (Store, Delete, Range) are linearizable; Range visits every key present for the whole pass"]}),
 })
+
+# ---------------------------------------------------------------- schema language
+
+LANG_TIES = ["SpecVerif.TiesLang." + t for t in ["grammarRules_tie", "lexKeywords_tie", "grammarRegenerated_tie", "grammarConflicts_tie",
+             "parser_tables_current", "keywords_model", "name_keywords_model"]] + ev("lexer_Lex", "lexer_new", "lexer_Error", "lexer_scanError", "parser_parse")
+
+def lang_unmodelled(op, g, l):
+    return l == "unmodelled"
+
+PROPS.update({
+    "C15": {
+        "level": "proof",
+        "audit_imports": ["SpecVerif.Props.C15Lex", "SpecVerif.TiesLang", "SpecVerif.TiesMpx"],
+        "lean_targets": ["SpecVerif.Props.C15Lex", "SpecVerif.TiesLang", "SpecVerif.TiesMpx", "langdriver"],
+        "go_cmds": ["lang"],
+        "theorems": ["SpecVerif.C15." + t for t in ["parse_print", "parse_injective", "lex_layout", "lex_blank", "parse_layout"]],
+        "ties": LANG_TIES,
+        "streams": [{"name": "c15", "gen": ["{bin}/lang", "gen", "c15", "{seed}", "{tier}", "{stats}"], "go": ["{bin}/lang"], "lean": ["{lean}/langdriver"]}],
+        "flag": r" VIOL ",
+        "diff_ignore": lang_unmodelled,
+        "rule": "one evaluation = one source text lexed and parsed by the implementation (token stream through the verif hook, tree dump) and by the Lean lexer/parser; distinct non-trivial = distinct (text class, answer) pairs; texts outside the lexer model's domain (non-ASCII, escapes, ...) are judged by the Go-side oracles only and counted as outside_model_domain",
+        "trusted": ["the Lean reference parser is hand-written against the pinned productions (one function per nonterminal); its agreement with the goyacc parser is validated on every run, incl. token- and character-level mutations",
+                    "text/scanner is modelled for NUL-free ASCII without escapes; the vendored goyacc (x/tools v0.29.0) regenerates grammar.go"],
+        "assumptions": ["well-formed tree = names are what the lexer can produce (identifiers are not keywords; field names are identifiers or contextual keywords); integers below 2^63",
+                        "string escapes are not part of the language (not interpreted by the implementation): literals with a backslash are outside the model"],
+    },
+})
+
